@@ -32,9 +32,12 @@ def run(ctx):
     if not U.ok:
         return
     clause_a(ctx, fx, U)
+    import c03
+    c03.v6(ctx, fx, U, "C01.a")
     clause_b(ctx, fx, U)
     clause_c(ctx, fx, U)
     clause_d(ctx, fx)
+    clause_e(ctx, fx)
 
 
 def clause_a(ctx, fx, U):
@@ -288,3 +291,103 @@ def clause_d(ctx, fx):
         ctx.ok("C01.d", issue, "holder-key-provenance", "self.holder_key is assigned from this call's holder_key argument on every path before the payload is assembled")
     else:
         ctx.finding("C01.d", issue, "holder-key-provenance", "the holder key confirmed in `cnf` is not (on every path) the one passed to this call: a credential issued without a key can carry an earlier holder's cnf")
+
+
+def clause_e(ctx, fx, config="default"):
+    """disclosure text = ["<salt>", <JSON(name)>, <JSON(value)>] / ["<salt>", <JSON(value)>]: the literal pieces of both format!
+    templates, the name encoded by serde from the UNMODIFIED key, the value being the serialisation of the value parameter,
+    optionally passed through the per-character ASCII escaper (checked: copies ASCII unchanged, stateless)"""
+    import imodel
+    import transducer
+    D = fx.fn(imodel.DISC_NEW)
+    if D is None:
+        ctx.missing("C01.e", imodel.DISC_NEW, "not found")
+        return
+    dv = vals(D)
+    texts = []
+    for b, t in D.calls():
+        if t.get("resolved") == "std::fmt::format":
+            n = dv.call_node(b)
+            pcs = common.fmt_pieces(n)
+            if pcs and pcs[0][0] == "lit" and pcs[0][1].startswith("["):
+                texts.append(n)
+    if not texts:
+        ctx.missing("C01.e", "disclosure text", "SDJWTDisclosure::new does not base64url-encode a formatted text")
+        return
+    shapes = {3: ['["', None, '", ', None, ', ', None, ']'], 2: ['["', None, '", ', None, ']']}
+    seen = set()
+    for tx in texts:
+        pcs = common.fmt_pieces(tx)
+        if pcs is None:
+            ctx.finding("C01.e", D, "text-format", "the disclosure text is not a decodable format! of [salt, name?, value]: %s" % vstr(tx, 4))
+            continue
+        nargs = sum(1 for (k, _) in pcs if k == "arg")
+        want = shapes.get(nargs)
+        got = [(x if k == "lit" else None) for (k, x) in pcs]
+        seen.add(nargs)
+        if want is None or got != want:
+            ctx.finding("C01.e", D, "text-format:%d" % nargs, "the disclosure text template is %r (expected %r): the disclosure is not the JSON array [\"salt\", name?, value]" % (got, want))
+            continue
+        ctx.ok("C01.e", D, "text-format:%d" % nargs, "template is [\"{}\", %s{}]" % ("{}, " if nargs == 3 else ""))
+        args = [x for (k, x) in pcs if k == "arg"]
+        value = args[-1]
+        if nargs == 3:
+            name = peel(args[1])
+            okn = False
+            why = vstr(name, 4)
+            if name.kind == "call" and name.d["term"].get("resolved_local") and name.d["term"].get("resolved") in fx.fns and name.kids:
+                E = fx.fns[name.d["term"]["resolved"]]
+                rv = vals(E).return_value()
+                r0 = rv
+                # to_string(Value::String(String::from(param))) : serde's own encoding of the unmodified name
+                if r0.kind == "call" and r0.d["term"].get("name") == "to_string" and (r0.d["term"].get("self_ty") or "") == "serde_json::Value" and r0.kids:
+                    a = peel(r0.kids[0])
+                    if a.kind == "agg" and a.d["agg"].get("adt") == "serde_json::Value" and a.d["agg"].get("variant") == "String" and a.kids:
+                        inner = peel(a.kids[0])
+                        okn = inner.kind == "param" and inner.fn is E
+                        if not okn:
+                            why = "the name is transformed before JSON encoding: %s" % vstr(a.kids[0], 4)
+                key_arg = peel(name.kids[0])
+                kk = key_arg
+                while kk.kind in ("variant", "field") and kk.kids:
+                    kk = peel(kk.kids[0])
+                okn = okn and kk.kind == "param" and kk.d.get("name") == "key"
+            if okn:
+                ctx.ok("C01.e", D, "name-encoding", "the member name is JSON-encoded by serde (Value::String(name).to_string()) from the unmodified key")
+            else:
+                ctx.finding("C01.e", D, "name-encoding", "the member name in the disclosure text is not serde's JSON encoding of the unmodified key (%s): holder and verifier recover a different name" % why)
+        # value alternatives
+        alts = peel(value).kids if peel(value).kind == "phi" else [value]
+        for alt in alts:
+            a = alt
+            hops = []
+            okv = None
+            guard = 0
+            while guard < 6:
+                guard += 1
+                p = peel(a)
+                if p.kind == "call" and p.d["term"].get("name") == "to_string" and p.kids and peel(p.kids[0]).kind == "param" and peel(p.kids[0]).d.get("name") == "value":
+                    okv = True
+                    break
+                if p.kind == "call" and p.d["term"].get("resolved_local") and p.d["term"].get("resolved") in fx.fns and p.kids:
+                    hops.append(fx.fns[p.d["term"]["resolved"]])
+                    a = p.kids[0]
+                    continue
+                okv = False
+                break
+            if not okv:
+                ctx.finding("C01.e", D, "value-encoding", "the value part of the disclosure text is not the serialisation of the value parameter: %s" % vstr(alt, 4))
+                continue
+            bad = None
+            for h in hops:
+                if config == "mock_salts" and h.name not in ctx.facts("default").fns:
+                    continue  # the mock-only re-spacer is judged by C16.M3b
+                ok, msg = transducer.ascii_identity(h)
+                if not ok:
+                    bad = (h, msg)
+            if bad:
+                ctx.finding("C01.e", bad[0], "value-escaper", "a function applied to the serialised value is not a per-character escaper that leaves ASCII untouched (%s)" % bad[1])
+            else:
+                ctx.ok("C01.e", D, "value-encoding", "value text = to_string(value)%s" % ("".join(" |> " + h.name.split("::")[-1] for h in reversed(hops))))
+    if seen != {2, 3}:
+        ctx.finding("C01.e", D, "text-forms", "expected both the named (3 fields) and the unnamed (2 fields) disclosure form, found %s" % sorted(seen))
